@@ -20,7 +20,7 @@ THEOREMS = [
     "Rtosc.C12.rejects_other_app",
     "Rtosc.C12.rejects_unparsable",
     "Rtosc.C12.rejects_unmatched",
-    "Rtosc.C12.load_save_restores_text",
+    "Rtosc.C12.load_save_restores_partial",
 ]
 VERIF = os.path.dirname(os.path.dirname(os.path.dirname(os.path.abspath(__file__))))
 # the application pool is fixed (seeded by constants): regenerate the C++ when the generator changes
